@@ -60,6 +60,11 @@ struct World
   int inc[3] = { 0, 0, 0 };
   const void* addr[3] = { nullptr, nullptr, nullptr }; // address of inc1 obtained in the current incarnation
   long rep[3] = { -1, -1, -1 };
+  // summary of the lookup history per object, across incarnations (part of the dedupe key: a cache that a change adds to the
+  // library is not among the fields the key reads, so states that differ only there must not be merged)
+  char last[3] = { '-', '-', '-' };   // the lookup-ish operation applied last (this or an earlier incarnation)
+  bool earlier[3] = { false, false, false }; // some lookup happened in an earlier incarnation
+  bool cur[3] = { false, false, false };     // some lookup happened in this incarnation
   std::string hist;
 };
 static long long n_states = 0, n_trans = 0, n_eval = 0, n_nontriv = 0;
@@ -83,6 +88,8 @@ static bool apply(World& w, const Op& op)
       w.inc[i]++;
       w.addr[i] = nullptr;
       w.rep[i] = -1;
+      if (w.cur[i]) w.earlier[i] = true;
+      w.cur[i] = false;
       break;
     }
     case 'd':
@@ -172,6 +179,10 @@ static bool apply(World& w, const Op& op)
       break;
     }
   }
+  if (w.live[i] && strchr("ijgnap", op.k)) {
+    w.last[i] = op.k;
+    w.cur[i] = true;
+  }
   w.hist += (w.hist.empty() ? "" : " ") + ops(op);
   return g_nviol == before;
 }
@@ -207,7 +218,7 @@ static std::string key(World& w)
 {
   std::string k;
   for (int i = 0; i < 3; i++) {
-    k += std::to_string(w.live[i]) + std::to_string(w.lib[i]) + (w.addr[i] ? "a" : "-");
+    k += std::to_string(w.live[i]) + std::to_string(w.lib[i]) + (w.addr[i] ? "a" : "-") + w.last[i] + (w.earlier[i] ? "E" : "e");
     // the symbol cache(s), by content: which names are cached (merging states that differ here hid the order "invoke, then take the address")
     for (auto& e : w.s[i].func_ptr_map) k += "," + e.first + "=" + std::to_string(reinterpret_cast<uintptr_t>(e.second));
     k += "/" + std::to_string(cache2_size(w.s[i]));
